@@ -257,6 +257,30 @@ func c07prop(ev *evid.Rec) func(rt *rapid.T) {
 							it.Data = []byte("folder-upload-bytes")
 							items = append(items, it)
 						}
+						// an earlier upload of the same folder may have been cut: inside the destination folder lie partial files
+						// exactly where the server will look for these items, so that it asks the client to resume them
+						if rapid.IntRange(0, 2).Draw(rt, L("leftovers")) == 0 && !altGone {
+							fs = []hlref.Field{sfld(hlref.FFileName, "up")}
+							rq.desc += " (into the folder up, which holds the partial files of a cut earlier upload)"
+							for _, it := range items {
+								if it.IsDir {
+									continue
+								}
+								parts := []string{"/"}
+								for _, p := range it.Path {
+									parts = append(parts, string(p))
+								}
+								rel := filepath.Join(parts...)
+								if rel == "/" || strings.ContainsRune(rel, 0) {
+									continue
+								}
+								pf := filepath.Join(root, "up", rel) + ".incomplete"
+								if len(filepath.Base(pf)) > 255 || os.MkdirAll(filepath.Dir(pf), 0o755) != nil {
+									continue
+								}
+								_ = os.WriteFile(pf, []byte("folder-"), 0o644)
+							}
+						}
 						r := request(hlref.TranUploadFldr, append(fs, fld(hlref.FTransferSize, hlref.BE32(100)), fld(hlref.FFolderItemCount, hlref.BE16(n)))...)
 						if ref, ok := r.Get(hlref.FRefNum); okReply(r) && ok {
 							_, _ = w.FolderUpload("10.7.1.1:9", ref, items)
